@@ -466,20 +466,48 @@ Qed.
 Definition WD_US : Z := WATCHDOG_MS * 1000.
 Definition T1_US : Z := TIMER1_MS * 1000.
 Definition IT_US : Z := ITERATE_MS * 1000.
-(* no wrap of the 32-bit microsecond counter within the horizon (C19 covers the wrap) *)
-Definition nowrap (s : st) : Prop := cycles0 s = 0 /\ 0 <= boot s /\ boot s + now s < 4294967296.
-Definition Upt (s : st) (t : Z) : Z := (boot s + t) / 1000000.
+(* uptime.c across any number of wraps of the 32-bit microsecond counter: usec_at s t is uptime_usec() at true time t
+   (one cycle counts as 0xffffffff us there, i.e. one microsecond is lost per wrap); Upt = uptime_sec() before the
+   truncation to 32 bits.  The only restriction left is that the uptime in SECONDS fits 32 bits (136 years). *)
+Definition usec_at (s : st) (t : Z) : Z :=
+  (cycles0 s + (boot s + t) / 4294967296) * 4294967295 + (boot s + t) mod 4294967296.
+Definition Upt (s : st) (t : Z) : Z := usec_at s t / 1000 / 1000.
+Definition nowrap_at (s : st) (t : Z) : Prop := 0 <= cycles0 s /\ 0 <= boot s /\ Upt s t < 4294967296.
+Definition nowrap (s : st) : Prop := nowrap_at s (now s).
+Lemma usec_closed s t : usec_at s t = cycles0 s * 4294967295 + (boot s + t) - (boot s + t) / 4294967296.
+Proof. unfold usec_at. pose proof (Z.div_mod (boot s + t) 4294967296 ltac:(lia)). lia. Qed.
+Lemma usec_mono s t1 t2 : t1 <= t2 -> usec_at s t1 <= usec_at s t2.
+Proof.
+  intros H. rewrite !usec_closed.
+  pose proof (Z.div_mod (boot s + t1) 4294967296 ltac:(lia)). pose proof (Z.mod_pos_bound (boot s + t1) 4294967296 ltac:(lia)).
+  pose proof (Z.div_mod (boot s + t2) 4294967296 ltac:(lia)). pose proof (Z.mod_pos_bound (boot s + t2) 4294967296 ltac:(lia)). lia.
+Qed.
+Lemma Upt_eq s t : Upt s t = usec_at s t / 1000000.
+Proof. unfold Upt. rewrite Z.div_div by lia. reflexivity. Qed.
+Lemma Upt_mono s t1 t2 : t1 <= t2 -> Upt s t1 <= Upt s t2.
+Proof. intros H. rewrite !Upt_eq. apply Z.div_le_mono; [lia|apply usec_mono; auto]. Qed.
+Lemma usec_nonneg s t : 0 <= cycles0 s -> 0 <= boot s + t -> 0 <= usec_at s t.
+Proof.
+  intros C B. rewrite usec_closed.
+  pose proof (Z.div_mod (boot s + t) 4294967296 ltac:(lia)). pose proof (Z.mod_pos_bound (boot s + t) 4294967296 ltac:(lia)).
+  assert (0 <= (boot s + t) / 4294967296) by (apply Z.div_pos; lia). lia.
+Qed.
 Lemma uptime_nowrap s : nowrap s -> 0 <= now s -> uptime s = Upt s (now s).
 Proof.
-  intros [C [B W]] N. unfold uptime, uptime_usec, Upt. rewrite C.
-  rewrite (Z.div_small (boot s + now s)), (Z.mod_small (boot s + now s)) by lia.
-  rewrite Z.div_div by lia. cbn [Z.add Z.mul]. apply u32_small.
-  split; [apply Z.div_pos; lia|]. apply Z.div_lt_upper_bound; lia.
+  intros [C [B W]] N. unfold uptime. change (uptime_usec s) with (usec_at s (now s)). apply u32_small.
+  split; [|exact W]. rewrite Upt_eq. apply Z.div_pos; [apply usec_nonneg; lia|lia].
 Qed.
-Lemma Upt_mono s t1 t2 : t1 <= t2 -> Upt s t1 <= Upt s t2.
-Proof. intros H. unfold Upt. apply Z.div_le_mono; lia. Qed.
-Lemma seconds_elapsed_aux b tau x d : 0 <= d -> tau + d * 1000000 <= x -> (b + tau) / 1000000 + d <= (b + x) / 1000000.
-Proof. intros Hd Hx. rewrite <- Z.div_add by lia. apply Z.div_le_mono; lia. Qed.
+(* d seconds of uptime take at most d s of real time plus one microsecond per counter wrap in between *)
+Lemma elapsed_bound s tau x d : 0 <= d -> Upt s x - Upt s tau < d ->
+  x - ((boot s + x) / 4294967296 - (boot s + tau) / 4294967296) < tau + d * 1000000.
+Proof.
+  intros Hd H. rewrite !Upt_eq in H.
+  destruct (Z_lt_dec (x - ((boot s + x) / 4294967296 - (boot s + tau) / 4294967296)) (tau + d * 1000000)); auto. exfalso.
+  assert (G : usec_at s tau + d * 1000000 <= usec_at s x) by (rewrite !usec_closed; lia).
+  pose proof (Z.div_le_mono _ _ 1000000 ltac:(lia) G) as G'. rewrite Z.div_add in G' by lia. lia.
+Qed.
+Lemma wraps_mono b x y : x <= y -> (b + x) / 4294967296 <= (b + y) / 4294967296.
+Proof. intros. apply Z.div_le_mono; lia. Qed.
 Lemma uptime_nonneg s : 0 <= uptime s. Proof. unfold uptime. apply u32_range. Qed.
 
 Record tfacts : Prop := {
@@ -516,9 +544,14 @@ Definition C0 (s : st) : Prop := registered s = 0 -> forall p, srpc s = Some p -
 Definition All (s : st) : Prop := TR s /\ Wd s /\ T1 s /\ C0 s.
 
 Lemma nowrap_frame s s' : now s' = now s -> boot s' = boot s -> cycles0 s' = cycles0 s -> nowrap s' -> nowrap s.
-Proof. unfold nowrap. intros -> -> ->. auto. Qed.
-Lemma Upt_frame s s' t : boot s' = boot s -> Upt s' t = Upt s t.
-Proof. unfold Upt. intros ->. reflexivity. Qed.
+Proof. unfold nowrap, nowrap_at, Upt, usec_at. intros -> -> ->. auto. Qed.
+Lemma Upt_frame s s' t : boot s' = boot s -> cycles0 s' = cycles0 s -> Upt s' t = Upt s t.
+Proof. unfold Upt, usec_at. intros -> ->. reflexivity. Qed.
+Lemma nowrap_later s s' : boot s' = boot s -> cycles0 s' = cycles0 s -> now s <= now s' -> 0 <= now s -> nowrap s' -> nowrap s.
+Proof.
+  unfold nowrap, nowrap_at. intros B C H H0 [a [b c]]. rewrite <- B, <- C. repeat split; auto.
+  rewrite <- (Upt_frame s s') by auto. pose proof (Upt_mono s' (now s) (now s') H). lia.
+Qed.
 Lemma srpc_none_created s : srpc s = None <-> inst_created s = None.
 Proof. unfold inst_created. destruct (srpc s); split; intros; congruence. Qed.
 Lemma is_registered_iff s : is_registered s = true <-> registered s = 1 /\ srpc s <> None.
@@ -948,13 +981,12 @@ Proof.
   - intros t [E|E] A; subst t.
     + apply Wb; auto; apply Ra; auto; destruct (Wc A); auto.
     + apply Tb; auto; apply Ra; auto; destruct (Tc A); auto.
-  - intros NW. assert (NW0 : nowrap s) by (destruct NW as [c [b w]]; unfold nowrap; rewrite <- b1, <- b2; repeat split; auto; lia).
+  - intros NW. assert (NW0 : nowrap s) by (apply (nowrap_later s s2); auto).
     specialize (Rlr NW0). rewrite b8. rewrite (uptime_nowrap s NW0 Rn) in Rlr. rewrite (uptime_nowrap s2 NW) by lia.
-    pose proof (Upt_mono s (now s) (now s2) NN). unfold Upt in *. rewrite b1. lia.
+    pose proof (Upt_mono s (now s) (now s2) NN). rewrite (Upt_frame s s2) by auto. lia.
 Qed.
 
-Lemma nowrap_later s s' : boot s' = boot s -> cycles0 s' = cycles0 s -> now s <= now s' -> 0 <= now s -> nowrap s' -> nowrap s.
-Proof. unfold nowrap. intros -> -> H H0 [a [b c]]. repeat split; auto; lia. Qed.
+
 
 Lemma frag_prefire i s fin : TR s -> pick s fin = Some i ->
   (i <> T_wd -> Wd s -> Wd (prefire i s)) /\ (i <> T_timer1 -> T1 s -> T1 (prefire i s)) /\ (i <> T_iter -> C0 s -> C0 (prefire i s)).
@@ -1082,7 +1114,8 @@ Proof.
       lia.
     + intros t Ht A. pose proof (Ra t Ht A). lia.
     + intros NW. specialize (Rlr (NWF NW)). rewrite (uptime_nowrap _ NW) by (cbn; lia).
-      rewrite (uptime_nowrap s (NWF NW) Rn) in Rlr. pose proof (Upt_mono s (now s) fin ltac:(lia)). cbn [now set_now]. unfold Upt in *. cbn [boot set_now]. lia.
+      rewrite (uptime_nowrap s (NWF NW) Rn) in Rlr. pose proof (Upt_mono s (now s) fin ltac:(lia)). cbn [now set_now].
+      rewrite (Upt_frame s (set_now fin s)) by reflexivity. lia.
   - intros NW Hh. apply W; auto.
   - intros NW HR HT. apply T; auto.
   - intros R0 p E0. apply C; auto.
@@ -1177,16 +1210,18 @@ Proof.
   set (s0 := init0 b cyc d pay lt cs cc).
   change (now s0) with 0.
   set (s1 := set_wstatus STATION_CONNECTING_ (emit O_WIFISTART [0] s0)).
-  assert (U1 : nowrap s1 -> uptime s1 = b / 1000000).
-  { intros NW. rewrite (uptime_nowrap s1 NW) by (cbn; lia). unfold Upt. cbn. f_equal. lia. }
+  assert (U1 : nowrap s1 -> uptime s1 = Upt s1 0).
+  { intros NW. rewrite (uptime_nowrap s1 NW) by (cbn; lia). reflexivity. }
+  assert (UF : forall x t, Upt (arm T_wd WATCHDOG_MS true (set_lastresp x s1)) t = Upt s1 t) by (intros; reflexivity).
   assert (U0 : 0 <= uptime s1) by apply uptime_nonneg.
   assert (NWs : forall x, nowrap (arm T_wd WATCHDOG_MS true (set_lastresp x s1)) -> nowrap s1) by (intros x H; exact H).
   assert (Us : forall x, uptime (arm T_wd WATCHDOG_MS true (set_lastresp x s1)) = uptime s1) by (intros; reflexivity).
   generalize dependent (uptime s1). intros u U1 U0 Us.
+  specialize (UF u).
   destruct (boot_pre_fields b cyc d pay lt u) as [f1 [f2 [f3 [f4 [f5 [f6 [f7 [f8 [f9 [f10 [f11 f12]]]]]]]]]]].
   cbn zeta in *. fold s0 in f1, f2, f3, f4, f5, f6, f7, f8, f9, f10, f11, f12. fold s1 in f1, f2, f3, f4, f5, f6, f7, f8, f9, f10, f11, f12.
   specialize (Us u). specialize (NWs u).
-  generalize dependent (arm T_wd WATCHDOG_MS true (set_lastresp u s1)). intros s2 NWs Us f1 f2 f3 f4 f5 f6 f7 f8 f9 f10 f11 f12.
+  generalize dependent (arm T_wd WATCHDOG_MS true (set_lastresp u s1)). intros s2 UF NWs Us f1 f2 f3 f4 f5 f6 f7 f8 f9 f10 f11 f12.
   clearbody s1. clear s0.
   destruct tfacts_ok as [_ [Pw _] Kw]. destruct consts_ok as [_ _ _ _ _ [K1 [K2 [K3 [K4 K5]]]] _ _].
   apply start_all; auto.
@@ -1204,7 +1239,7 @@ Proof.
     + intros t [E|E] At; subst t; [rewrite f3, f2; cbn [due period]; lia|rewrite f4 in At; discriminate].
     + intros NW. rewrite f9, Us. lia.
   - intros NW _. rewrite f3, f9. cbn [due]. replace (WD_US - WD_US) with 0 by lia.
-    rewrite (U1 (NWs NW)). unfold Upt. rewrite f10. replace (b + 0) with b by lia. lia.
+    rewrite (U1 (NWs NW)), UF. lia.
   - intros NW HR. apply is_registered_iff in HR. destruct HR as [_ N]. contradiction.
   - intros _ p E. rewrite f8 in E. discriminate E.
 Qed.
@@ -1248,14 +1283,9 @@ Proof.
   pose proof (Upt_mono s (now s - T1_US - J) (due (t_timer1 s) - T1_US) ltac:(lia)). lia.
 Qed.
 (* in real time: tau = true time of the last received call (last_response = uptime second of tau) *)
-Lemma elapsed_bound b tau x d : 0 <= d -> (b + x) / 1000000 - (b + tau) / 1000000 < d -> x < tau + d * 1000000.
-Proof.
-  intros Hd H. destruct (Z_lt_dec x (tau + d * 1000000)); auto. exfalso.
-  pose proof (seconds_elapsed_aux b tau x d Hd ltac:(lia)). lia.
-Qed.
+
 
 (* ---------- progress relation: what a run without received calls does to a registered device ---------- *)
-Definition nowrap_at (s : st) (t : Z) : Prop := cycles0 s = 0 /\ 0 <= boot s /\ boot s + t < 4294967296.
 Definition RegBound (s : st) (t : Z) : Prop :=
   nowrap_at s t -> 0 < actto s < 4294966000 -> Upt s (t - T1_US - J) - lastresp s < actto s + PING_RECONNECT_PLUS.
 Definition WdBound (s : st) (t : Z) : Prop := nowrap_at s t -> Upt s (t - WD_US - J) - lastresp s <= WATCHDOG_TIMEOUT_S.
@@ -1278,7 +1308,7 @@ Proof. constructor; auto; try lia; try (intros; congruence). Qed.
 Lemma bound_frame s s' t : boot s' = boot s -> cycles0 s' = cycles0 s -> lastresp s' = lastresp s -> actto s' = actto s ->
   (RegBound s' t -> RegBound s t) /\ (WdBound s' t -> WdBound s t).
 Proof.
-  intros B C L A. unfold RegBound, WdBound, nowrap_at, Upt. rewrite B, C, L, A. auto.
+  intros B C L A. unfold RegBound, WdBound, nowrap_at, Upt, usec_at. rewrite B, C, L, A. auto.
 Qed.
 Lemma Prog_trans s1 s2 s3 : Prog s1 s2 -> Prog s2 s3 -> Prog s1 s3.
 Proof.
@@ -1327,7 +1357,7 @@ Proof.
   - intros _ H1 H2. congruence.
 Qed.
 
-Lemma nowrap_at_now s : nowrap_at s (now s) <-> nowrap s. Proof. unfold nowrap_at, nowrap. tauto. Qed.
+Lemma nowrap_at_now s : nowrap_at s (now s) <-> nowrap s. Proof. unfold nowrap. tauto. Qed.
 
 (* the bounds hold at the moment a callback is entered *)
 Lemma prefire_bounds i s fin : All s -> pick s fin = Some i -> halted s = false ->
@@ -1395,7 +1425,7 @@ Qed.
 Lemma bounds_TQ s s' : TQ s s' -> (WdBound s (now s) -> WdBound s' (now s')) /\ ((is_registered s = true -> RegBound s (now s)) -> is_registered s' = true -> RegBound s' (now s')).
 Proof.
   intros [B [[q1 [q2 [q3 [q4 q5]]]] [h rg]]].
-  unfold WdBound, RegBound, nowrap_at, Upt. rewrite (tb_now _ _ B), (tb_boot _ _ B), (tb_cyc _ _ B), q2, q3. split; auto.
+  unfold WdBound, RegBound, nowrap_at, Upt, usec_at. rewrite (tb_now _ _ B), (tb_boot _ _ B), (tb_cyc _ _ B), q2, q3. split; auto.
   intros H HR. apply H. apply is_registered_iff in HR. destruct HR as [R1 N1]. apply is_registered_iff. split; [congruence|].
   intros E. apply N1. apply srpc_none_created. rewrite (tb_cre _ _ B). apply srpc_none_created. exact E.
 Qed.
@@ -1514,46 +1544,57 @@ Qed.
 (* ---------- C05 end to end: a server that has fallen silent ---------- *)
 (* s0: any reachable state; tau: the true time (us since start-up) at which the last call was received, i.e.
    last_response = uptime second of tau; the run s0 --evs--> s1 is arbitrary (local traffic, callbacks, Wi-Fi events, send results,
-   timer phases, lateness <= J) except that no call is received in it (nresp unchanged); no wrap of the 32-bit counter up to now s1. *)
+   timer phases, lateness <= J) except that no call is received in it (nresp unchanged).  The 32-bit microsecond counter may wrap any
+   number of times: W = number of wraps between tau and the end of the run, each costs one microsecond (uptime.c counts a cycle
+   as 0xffffffff us); the uptime in seconds fits 32 bits. *)
+Definition wraps (s : st) (tau x : Z) : Z := (boot s + x) / 4294967296 - (boot s + tau) / 4294967296.
 Theorem silent_restart_e2e_thm s0 evs s1 tau : sites_ok CallSites = true -> rreachable cs cc J s0 -> RRun s0 evs s1 ->
-  nresp s1 = nresp s0 -> cycles0 s0 = 0 -> 0 <= boot s0 -> boot s0 + now s1 < 4294967296 -> lastresp s0 = Upt s0 tau ->
-  halted s0 = false -> tau + (WATCHDOG_TIMEOUT_S + 1) * 1000000 + WD_US + J <= now s1 ->
-  halted s1 = true /\ exists t, now s0 <= t /\ t <= now s1 /\ restart_at t s1 /\ t < tau + (WATCHDOG_TIMEOUT_S + 1) * 1000000 + WD_US + J.
+  nresp s1 = nresp s0 -> 0 <= cycles0 s0 -> 0 <= boot s0 -> Upt s0 (now s1) < 4294967296 -> lastresp s0 = Upt s0 tau ->
+  halted s0 = false -> tau + (WATCHDOG_TIMEOUT_S + 1) * 1000000 + WD_US + J + wraps s0 tau (now s1) <= now s1 ->
+  halted s1 = true /\ exists t, now s0 <= t /\ t <= now s1 /\ restart_at t s1 /\
+                               t < tau + (WATCHDOG_TIMEOUT_S + 1) * 1000000 + WD_US + J + wraps s0 tau (now s1).
 Proof.
   intros HS HR Run N C0' B0 NW L Hh Late.
   pose proof (rreachable_full s0 HS HR) as F0. pose proof (RRun_full _ _ _ HS Run F0) as [_ A1].
   pose proof (RRun_prog _ _ _ HS Run F0) as P. destruct P as [p1 p2 p3 p4 p5 p6 p7 p8].
-  destruct (p6 N) as [L1 [T1' _]]. destruct tfacts_ok as [_ _ Kw].
-  assert (NW1 : nowrap s1) by (unfold nowrap; rewrite p1, p2; auto).
+  destruct (p6 N) as [L1 [T1' _]]. destruct tfacts_ok as [_ [Pw _] Kw].
+  assert (NW1 : nowrap s1) by (unfold nowrap, nowrap_at; rewrite p1, p2, (Upt_frame s0 s1) by auto; auto).
+  assert (WM : forall x, x <= now s1 -> wraps s0 tau x <= wraps s0 tau (now s1)) by (intros x Hx; unfold wraps; pose proof (wraps_mono (boot s0) x (now s1) Hx); lia).
   assert (H1 : halted s1 = true).
   { destruct (halted s1) eqn:E; auto. exfalso. pose proof (All_wd_bound s1 A1 NW1 E) as Bd.
-    rewrite L1, L in Bd. unfold Upt in Bd. rewrite p1 in Bd.
-    pose proof (elapsed_bound (boot s0) tau (now s1 - WD_US - J) (WATCHDOG_TIMEOUT_S + 1) ltac:(lia) ltac:(lia)). lia. }
+    rewrite L1, L, (Upt_frame s0 s1) in Bd by auto.
+    pose proof (elapsed_bound s0 tau (now s1 - WD_US - J) (WATCHDOG_TIMEOUT_S + 1) ltac:(lia) ltac:(lia)) as EB.
+    pose proof (WM (now s1 - WD_US - J) ltac:(lia)). unfold wraps in *. lia. }
   split; auto. destruct (p8 N Hh H1) as [t [t1 [t2 [Rt Bd]]]]. exists t. repeat split; auto.
-  assert (NWt : nowrap_at s0 t) by (unfold nowrap_at; repeat split; auto; lia).
-  specialize (Bd NWt). rewrite L in Bd. unfold Upt in Bd.
-  pose proof (elapsed_bound (boot s0) tau (t - WD_US - J) (WATCHDOG_TIMEOUT_S + 1) ltac:(lia) ltac:(lia)). lia.
+  assert (NWt : nowrap_at s0 t) by (unfold nowrap_at; repeat split; auto; pose proof (Upt_mono s0 t (now s1) t2); lia).
+  specialize (Bd NWt). rewrite L in Bd.
+  pose proof (elapsed_bound s0 tau (t - WD_US - J) (WATCHDOG_TIMEOUT_S + 1) ltac:(lia) ltac:(lia)) as EB.
+  pose proof (WM (t - WD_US - J) ltac:(lia)). unfold wraps in *. lia.
 Qed.
 
 Theorem silent_reconnect_e2e_thm s0 evs s1 tau : sites_ok CallSites = true -> rreachable cs cc J s0 -> RRun s0 evs s1 ->
-  nresp s1 = nresp s0 -> cycles0 s0 = 0 -> 0 <= boot s0 -> boot s0 + now s1 < 4294967296 -> lastresp s0 = Upt s0 tau ->
+  nresp s1 = nresp s0 -> 0 <= cycles0 s0 -> 0 <= boot s0 -> Upt s0 (now s1) < 4294967296 -> lastresp s0 = Upt s0 tau ->
   is_registered s0 = true -> armed (t_stop s0) = false -> 0 < actto s0 < 4294966000 ->
-  tau + (actto s0 + PING_RECONNECT_PLUS) * 1000000 + T1_US + J <= now s1 ->
-  exists t, now s0 <= t /\ t <= now s1 /\ disc_at t s1 /\ wifi_at t s1 /\ t < tau + (actto s0 + PING_RECONNECT_PLUS) * 1000000 + T1_US + J.
+  tau + (actto s0 + PING_RECONNECT_PLUS) * 1000000 + T1_US + J + wraps s0 tau (now s1) <= now s1 ->
+  exists t, now s0 <= t /\ t <= now s1 /\ disc_at t s1 /\ wifi_at t s1 /\
+            t < tau + (actto s0 + PING_RECONNECT_PLUS) * 1000000 + T1_US + J + wraps s0 tau (now s1).
 Proof.
   intros HS HR Run N C0' B0 NW L HReg St HT Late.
   pose proof (rreachable_full s0 HS HR) as F0. pose proof (RRun_full _ _ _ HS Run F0) as [_ A1].
   pose proof (RRun_prog _ _ _ HS Run F0) as P. destruct P as [p1 p2 p3 p4 p5 p6 p7 p8].
-  destruct (p6 N) as [L1 [T1' _]]. destruct tfacts_ok as [Kp _ _].
-  assert (NW1 : nowrap s1) by (unfold nowrap; rewrite p1, p2; auto).
+  destruct (p6 N) as [L1 [T1' _]]. destruct tfacts_ok as [Kp [_ [P1 _]] _].
+  assert (NW1 : nowrap s1) by (unfold nowrap, nowrap_at; rewrite p1, p2, (Upt_frame s0 s1) by auto; auto).
+  assert (WM : forall x, x <= now s1 -> wraps s0 tau x <= wraps s0 tau (now s1)) by (intros x Hx; unfold wraps; pose proof (wraps_mono (boot s0) x (now s1) Hx); lia).
   destruct (p7 N St HReg) as [HR1|[t [t1 [t2 [D [W Bd]]]]]].
   - exfalso. assert (HT1 : 0 < actto s1 < 4294966000) by (rewrite T1'; auto).
-    pose proof (All_t1_bound s1 A1 NW1 HR1 HT1) as Bd. rewrite L1, T1', L in Bd. unfold Upt in Bd. rewrite p1 in Bd.
-    pose proof (elapsed_bound (boot s0) tau (now s1 - T1_US - J) (actto s0 + PING_RECONNECT_PLUS) ltac:(lia) ltac:(lia)). lia.
+    pose proof (All_t1_bound s1 A1 NW1 HR1 HT1) as Bd. rewrite L1, T1', L, (Upt_frame s0 s1) in Bd by auto.
+    pose proof (elapsed_bound s0 tau (now s1 - T1_US - J) (actto s0 + PING_RECONNECT_PLUS) ltac:(lia) ltac:(lia)) as EB.
+    pose proof (WM (now s1 - T1_US - J) ltac:(lia)). unfold wraps in *. lia.
   - exists t. repeat split; auto.
-    assert (NWt : nowrap_at s0 t) by (unfold nowrap_at; repeat split; auto; lia).
-    specialize (Bd NWt HT). rewrite L in Bd. unfold Upt in Bd.
-    pose proof (elapsed_bound (boot s0) tau (t - T1_US - J) (actto s0 + PING_RECONNECT_PLUS) ltac:(lia) ltac:(lia)). lia.
+    assert (NWt : nowrap_at s0 t) by (unfold nowrap_at; repeat split; auto; pose proof (Upt_mono s0 t (now s1) t2); lia).
+    specialize (Bd NWt HT). rewrite L in Bd.
+    pose proof (elapsed_bound s0 tau (t - T1_US - J) (actto s0 + PING_RECONNECT_PLUS) ltac:(lia) ltac:(lia)) as EB.
+    pose proof (WM (t - T1_US - J) ltac:(lia)). unfold wraps in *. lia.
 Qed.
 End Timing.
 
